@@ -140,7 +140,13 @@ func supervise(id string, cfg props.Cfg) int {
 		i = j
 	}
 	if i < 0 {
-		return code // not a crash of the Go program (build problems, usage errors, signals from outside)
+		// not a crash of the Go program (build problems, usage errors, signals from outside such as
+		// the kernel's out-of-memory killer): no verdict, say so
+		fmt.Printf("ERROR property=%s the check's process ended with code %d without a verdict (killed from outside? out of memory?): inconclusive\n", id, code)
+		if code <= 0 || code == 1 {
+			code = 2
+		}
+		return code
 	}
 	crash := stderr[i:]
 	line := crash
